@@ -4,11 +4,18 @@ Import ListNotations.
 Require Import SDJ.Json SDJ.Wire SDJ.Model2 SDJ.Out SDJ.Split SDJ.Issuer1 SDJ.Issuer2 SDJ.C14Proofs.
 Local Open Scope string_scope.
 
+(* for EVERY claims value, a JSON object or not (since repair F29 claims that are not an object are refused) *)
 Theorem C14_encode_never_panics :
-  forall E kvs paths (max_decoys : option Z) cnf header,
-    (forall h p, ie_sign E h p <> Panic) -> issue E (JObj kvs) paths max_decoys cnf header <> Panic.
-Proof. exact issue_no_panic. Qed.
+  forall E claims paths (max_decoys : option Z) cnf header,
+    (forall h p, ie_sign E h p <> Panic) -> issue E claims paths max_decoys cnf header <> Panic.
+Proof. exact issue_no_panic_any. Qed.
 Print Assumptions C14_encode_never_panics.
+
+Theorem C14_non_object_claims_are_an_error :
+  forall E claims paths (max_decoys : option Z) cnf header,
+    (forall kvs, claims <> JObj kvs) -> issue E claims paths max_decoys cnf header = Fail.
+Proof. exact issue_non_object_refused. Qed.
+Print Assumptions C14_non_object_claims_are_an_error.
 
 Theorem C14_no_slash_is_error :
   forall E claims p salt, contains slash p = false -> build_disclosure E claims p salt = Err.
